@@ -15,8 +15,9 @@
 (*                     H3  if len(self.send_buffer) == 0:                                                                           *)
 (*                     H4      if len(self.send_backlog) == 0:                                                                      *)
 (*                     H5          self.stop_sending()              selector.modify(READ)                                           *)
-(*                     H6      else: self.send_buffer = self.send_backlog.pop(0)                                                    *)
-(*                     H7            self.handle_can_send(sock)     recursion: back to H1 without a new selector event              *)
+(*                     H6      self.send_buffer = self.send_backlog.pop(0)                                                          *)
+(*                     H7      back to H1 without a new selector event (a loop since the repair of F-C10a; it was a recursive call, *)
+(*                             one interpreter frame per drained frame)                                                             *)
 (* Locked = TRUE   both functions are critical sections of one per-connection lock (the code after the repair of F-C12c);           *)
 (* Locked = FALSE  no lock (the code as it was): kept as a switch for the witness run and to generate the adversarial schedules     *)
 (*                 that are replayed into the real code.                                                                            *)
